@@ -7,7 +7,8 @@ hprop.install(globals(), hprop.HistoryProperty(
     prop="C17",
     monitors=lambda: [C17Assignment()],
     profile=profile(nv=(2, 6), n_requests=(8, 40), timeouts=[300, 600, 600], socs=[0.0005, 0.002, 0.004, 0.01, 0.05, 0.3, 0.5, 0.9, 0.9],
-                    builtin=[False, True, True], mechs=["leaf_50", "tiny_bev", "tiny_bev", "toyota_corolla", "tiny_ice", "tiny_ice"]),
+                    builtin=[False, True, True], mechs=["leaf_50", "tiny_bev", "tiny_bev", "toyota_corolla", "tiny_ice", "tiny_ice"],
+                    n_scripted=[0, 1, 1, 2, 3], fleets=[0, 2, 2, 3], human_share=[False, True]),
     nontrivial=lambda f: "dispatched_vehicle_redirected" in f and bool(f & {"ran_empty_while_dispatched", "request_redispatched"}),
     rule=("stateful histories over generated worlds with near-empty vehicles, re-dispatch, interruption by every instruction type, "
           "double dispatch, cancellations and requests injected co-simulation style through simulation_state_ops (also at simulation time 0, before the first step); built-in dispatcher alone in a third of the cases; after every step and single-instruction "
